@@ -271,7 +271,10 @@ def build_data2d(I, sh, tag="b"):
     for f in range(nF):
         for c in range(nC):
             k = cells[f][c]
-            if k is not None and sh.get("concrete_points"):
+            if k in ("e1", "e2"):
+                # a cell with no points, given as an empty array of shape (0,) / (0, 2)
+                data[f, c] = np.zeros((0,) if k == "e1" else (0, 2), dtype="<f4")
+            elif k is not None and sh.get("concrete_points"):
                 # scale instance: many concrete, pairwise different points per cell
                 base = (f * nC + c) * 1000003
                 data[f, c] = np.array([[float((base + 2 * j) % 16777213), float((base + 2 * j + 1) % 16777213)] for j in range(k)], dtype="<f4")
